@@ -13,6 +13,7 @@ build() { # $1 = path of .c/.cpp relative to worktree
 }
 echo "== clean demo"; /venv/bin/python mutants/demo_$n.py >/dev/null 2>&1; echo "clean demo exit=$?"
 cfile=$(grep -m1 '^+++ ' mutants/mutant_$n.diff | sed 's/^+++ //; s/\t.*//' | grep -E '\.(c|cpp)$' | sed 's#^.*\(src/biotite/.*\)$#\1#')
+case "$cfile" in ""|src/biotite/*) ;; *) cfile=$(find src/biotite -name "$(basename "$cfile")" | head -1);; esac
 if [ -n "$cfile" ]; then
   cp "$cfile" /tmp/cfile.keep.$$
   patch -s "$cfile" mutants/mutant_$n.diff || exit 2
